@@ -66,6 +66,8 @@ class LoopInv:
 
     def _check(self, ip, frame, k, phase):
         tmpl = self.template(ip, frame, k)
+        for n, fact in enumerate(tmpl.pop('@facts', [])):
+            ip.prove('%s/%s/fact%d' % (self.name, phase, n), fact)
         for path, want in tmpl.items():
             try:
                 have = self._get(ip, frame, path)
@@ -79,6 +81,10 @@ class LoopInv:
 
     def _havoc(self, ip, frame, k, assigned):
         tmpl = self.template(ip, frame, k)
+        for fact in tmpl.pop('@facts', []):
+            ip.add_pc(fact)
+        if not ip.feasible():
+            raise Infeasible()
         for path, val in tmpl.items():
             self._set(ip, frame, path, _clone(val))
         for name in assigned:
@@ -178,6 +184,7 @@ class Registry:
         self.call_hook = None
         self.opaque_attr = None
         self.np_array_opaque = None
+        self.opaque_getitem = None
         self.overrides = {}
 
     def global_override(self, module_short, name):
@@ -306,15 +313,21 @@ def discharge(ob, timeout_ms, target, ctx):
         s.add(c)
     out = {'name': ob['name'], 'backend': 'z3', 'flags': sorted(ob['flags']), 'info': ob['info']}
     # vacuity guard: the path condition itself must be satisfiable
+    s.set('timeout', 1500)
     r0 = s.check()
     out['pc_sat'] = str(r0)
     s.add(z3.Not(ob['goal']))
+    # first a short z3 attempt, then cvc5 on the dumped SMT-LIB, then z3 with the full budget
+    s.set('timeout', max(1000, int(timeout_ms * 0.3)))
     r = s.check()
     if r == z3.unknown:
         r2 = _cvc5(s, timeout_ms)
         if r2 is not None:
             out['backend'] = 'cvc5'
             r = r2
+        else:
+            s.set('timeout', timeout_ms)
+            r = s.check()
     if r == z3.unsat or r == 'unsat':
         out['result'] = 'discharged'
     elif r == z3.sat:
